@@ -152,7 +152,7 @@ def jobs_for(tier):
     for n, root, enh in itertools.product(ns, roots, (False, True)):
         if n == 3 and root not in ("2", "4") and tier == "quick":
             continue
-        jobs.append(dict(id=f"e{k}", module="checks.c11", factory="make", cfg=dict(n=n, root=root, enhance=enh, mode="eigen" if k % 2 else "dispatch")))
+        jobs.append(dict(id=f"e{k}", module="checks.c11", factory="make", cfg=dict(n=n, root=root, enhance=enh, mode="eigen" if (k % 2 or n == 1) else "dispatch")))
         k += 1
     for f64, retry in ((False, True), (True, True), (False, False)):
         jobs.append(dict(id=f"e{k}", module="checks.c11", factory="make", cfg=dict(n=2, root="2", enhance=False, mode="dispatch", fail_first=True, f64=f64, retry=retry)))
